@@ -332,7 +332,7 @@ def motif_deps_swap(rnd, sid):
     h = Hist(sid, g)
     h.build(rnd, None, j=rnd.choice([1, 2]), k=1, sched=rand_sched(rnd, 8))
     e1.hidden = [('b.h' if x == 'a.h' else x) for x in e1.hidden]
-    h.add(Step('sethidden', 'step sethidden %s %s' % (hx(e1.out0), ' '.join(hx(x) for x in e1.hidden)), edge=0))
+    h.add(Step('sethidden', 'step sethidden %s %s' % (hx(e1.out0), ' '.join(hx(x) for x in e1.hidden)), edge=0, g_after=copy.deepcopy(g)))
     if rnd.random() < 0.7: h.add(Step('touch', 'step touch %s' % hx('m.c'), path='m.c'))
     else: h.edit('m.c', 'main.1')
     h.build(rnd, None, j=1, k=1, sched=rand_sched(rnd, 8))
